@@ -82,20 +82,19 @@ def main():
         meta["steps"]["demo_clean_rc"] = rc_clean
         meta["steps"]["demo_patched_rc"] = rp.returncode
         meta["steps"]["demo_patched_tail"] = rp.stdout[-400:]
-    finally:
+    except Exception:
         sh(["git", "-C", "/repo", "worktree", "remove", "--force", wt])
         shutil.rmtree("/var/tmp/bezier-seedcheck", ignore_errors=True)
+        raise
     ok = meta["steps"]["applies"] and meta["steps"]["builds"] and not meta["steps"]["new_test_failures"] \
         and meta["steps"]["demo_clean_rc"] == 0 and meta["steps"]["demo_patched_rc"] != 0
     meta["confirmed"] = ok
     # our checks against /repo with the patch applied
-    st = sh(["git", "-C", "/repo", "status", "--porcelain"]).stdout.strip()
-    if st:
-        print("refusing: /repo has uncommitted changes:\n" + st)
-        return 2
+    # (other workers may be building from /repo concurrently, so the patched tree is a scratch worktree of
+    #  /repo's HEAD and the checks are pointed at it with BEZIER_REPO; equivalent to `git -C /repo apply`)
     meta["checks"] = {}
+    os.environ["BEZIER_REPO"] = wt
     try:
-        sh(["git", "-C", "/repo", "apply", patch])
         for p in [prop] + extra:
             t0 = time.time()
             ev = os.path.join(VERIF, "evidence", p + ".json")
@@ -110,7 +109,11 @@ def main():
                                  "with_failing_input": any(l.startswith("VIOLATION") and "no-failing-input-found" not in l for l in lines)}
             # keep the replay files of this run next to the seed
     finally:
-        sh(["git", "-C", "/repo", "checkout", "--", "."])
+        os.environ.pop("BEZIER_REPO", None)
+        sh(["git", "-C", "/repo", "worktree", "remove", "--force", wt])
+        shutil.rmtree("/var/tmp/bezier-seedcheck", ignore_errors=True)
+        # restore the extracted data of the clean tree
+        sh([PY, os.path.join(VERIF, "harness", "extract.py")])
     dest = os.path.join(VERIF, "seeded", name)
     os.makedirs(dest, exist_ok=True)
     for f in ("patch.diff", "demo.py", "README.md"):
